@@ -77,17 +77,13 @@ def check_C05(c):
                          "duplicate submit of x=%d registered/scheduled a second job" % p["x"]))
     # (b) no launch by an experiment entered after the marker was written
     marker_at = {}
-    for ev in c.by["proc-exit"]:
-        p = ev[5]
-        if p.get("kind") == "job" and p.get("done") and p["x"] not in marker_at:
-            marker_at[p["x"]] = ev[0]
-    for ev in c.by["marker-removed"]:
-        marker_at.pop(ev[5]["x"], None)
+    for ev in c.by["marker-written"]:
+        marker_at.setdefault(ev[5]["x"], ev[0])
     entered = {}
     for ev in c.by["xp-entered"]:
         entered.setdefault(ev[2], ev[0])
     removed = defaultdict(list)
-    for ev in c.by["clean-removed"]:
+    for ev in c.by["marker-removed"]:
         removed[ev[5]["x"]].append(ev[0])
     for ev in c.by["spawn"]:
         x = ev[5]["x"]
@@ -131,27 +127,54 @@ def hang_site(c, pid):
 
 def check_C06(c):
     out = []
-    # finished states are absorbing (per job object)
-    finished = {}
+    # finished states are absorbing (per job object).  A value that is replaced
+    # within the same kernel step (same actor, no scheduling point in between)
+    # was never observable and is not counted.
+    finished = {}   # job -> (state, vtime of assignment)
     for ev in c.by["state"]:
         p = ev[5]
         j = (ev[2], p["job"])
-        if j in finished and p["new"] != finished[j]:
+        if j in finished and p["new"] != finished[j][0]:
+            if finished[j][1] == ev[1]:
+                if p["new"] in FINAL:
+                    finished[j] = (p["new"], ev[1])
+                else:
+                    del finished[j]
+                continue
             out.append(V("C06", "finished-state-overwritten",
-                         {"overwrite": "%s->%s" % (finished[j], p["new"]), "via": p["where"]},
+                         {"overwrite": "%s->%s" % (finished[j][0], p["new"]), "via": p["where"]},
                          "job x=%s (%s) of pid %d: %s overwritten by %s in %s at seq %d"
-                         % (p["x"], p["job"], ev[2], finished[j], p["new"], p["where"], ev[0])))
-            finished[j] = p["new"] if p["new"] in FINAL else finished[j]
+                         % (p["x"], p["job"], ev[2], finished[j][0], p["new"], p["where"], ev[0])))
+            if p["new"] in FINAL:
+                finished[j] = (p["new"], ev[1])
         elif p["new"] in FINAL:
-            finished[j] = p["new"]
-    # wait() value is the final state, and truthful
+            finished[j] = (p["new"], ev[1])
+    # wait() value is the final state, and truthful: DONE iff the success marker
+    # existed when the final state was recorded
+    marker_at = {}
+    for ev in c.by["marker-written"]:
+        marker_at.setdefault(ev[5]["x"], ev[0])
     for ev in c.by["job-wait-return"]:
         p = ev[5]
         if p["result"] not in FINAL:
             out.append(V("C06", "wait-returned-nonfinal", {"result": p["result"]}, "job.wait() of x=%d returned %s" % (p["x"], p["result"])))
-        elif (p["result"] == "DONE") != bool(p["done"]):
-            out.append(V("C06", "untruthful-final-state", {"result": p["result"], "marker": bool(p["done"])},
-                         "job.wait() of x=%d returned %s but success marker present=%s" % (p["x"], p["result"], p["done"])))
+        else:
+            s_final = None
+            for se in c.by["state"]:
+                if se[2] == ev[2] and se[5]["x"] == p["x"] and se[5]["new"] == p["result"] and se[0] < ev[0]:
+                    s_final = se[0]
+            m = marker_at.get(p["x"])
+            marker = m is not None and s_final is not None and m < s_final
+            own = _own_exit_code(c, ev[2], p["x"], s_final)
+            if own is not None:
+                # the scheduler launched a process itself: its exit status decides
+                if (p["result"] == "DONE") != (own == 0):
+                    out.append(V("C06", "untruthful-final-state", {"result": p["result"], "exit": "zero" if own == 0 else "nonzero"},
+                                 "job.wait() of x=%d returned %s but its process exited with %s" % (p["x"], p["result"], own)))
+            elif (p["result"] == "DONE") != marker and not _dep_failed(c, ev[2], p["x"]):
+                out.append(V("C06", "untruthful-final-state", {"result": p["result"], "marker": marker},
+                             "job.wait() of x=%d returned %s but success marker present=%s when the state was recorded"
+                             % (p["x"], p["result"], marker)))
         if p["state"] != p["result"]:
             out.append(V("C06", "state-differs-from-wait", {"state": p["state"], "result": p["result"]},
                          "x=%d: wait() returned %s, job.state is %s" % (p["x"], p["result"], p["state"])))
@@ -193,6 +216,30 @@ def check_C06(c):
             out.append(V("C06", "unfinished-counter-nonzero", {"sign": _sign(pr.get("unfinished"))},
                          "pid %d: unfinishedJobs=%s at exit" % (pr["pid"], pr["unfinished"])))
     return out
+
+
+def _own_exit_code(c, pid, x, before):
+    """Exit status of the last process of x launched by scheduler pid before seq `before`."""
+    last = None
+    for ev in c.by["spawn"]:
+        if ev[2] == pid and ev[5]["x"] == x and (before is None or ev[0] < before):
+            last = ev
+    if last is None:
+        return None
+    jpid = last[5]["jpid"]
+    for ev in c.events:
+        if ev[0] <= last[0]:
+            continue
+        if ev[4] == "proc-exit" and ev[2] == jpid:
+            return ev[5]["code"]
+        if ev[4] == "proc-killed" and ev[5].get("pid") == jpid:
+            return -ev[5]["sig"]
+    return None
+
+
+def _dep_failed(c, pid, x):
+    return any(ev[2] == pid and ev[5]["x"] == x and ev[5]["new"] == "ERROR" and ev[5]["where"] == "dependencychanged"
+               for ev in c.by["state"])
 
 
 def _sign(n):
@@ -241,8 +288,10 @@ def expected_outcomes(c, pid):
             if get(u)[0] == "ERROR":
                 exp[x] = ("ERROR", False)
                 return exp[x]
-        o = (c.tasks[x].get("out") or ["ok"])[0]
-        killed = any(jf["x"] == x and jf.get("attempt", 0) == 0 for jf in c.scn.get("jobfaults", []))
+        att = sum(1 for ev in c.by["body-start"] if ev[5]["x"] == x and entered is not None and ev[0] < entered)
+        outs = c.tasks[x].get("out") or ["ok"]
+        o = outs[min(att, len(outs) - 1)]
+        killed = any(jf["x"] == x and jf.get("attempt", 0) == att for jf in c.scn.get("jobfaults", []))
         exp[x] = ("DONE" if (o == "ok" and not killed) else "ERROR", True)
         return exp[x]
 
